@@ -67,7 +67,20 @@ func txnconcExec(ops []string) (dops []string, res []string) {
 		var clock int64
 		var mu sync.Mutex
 		cur := map[int]*txRec{}
-		vhook.Install(&vhook.Handlers{Event: func(name string, args ...any) {
+		// every other case: the background work is stretched at its file-system operations (a few milliseconds before a table
+		// file is created, written, synced, renamed, removed), so that lookups and commits fall inside a flush or a compaction
+		var jmu sync.Mutex
+		jr := rand.New(rand.NewSource(seed ^ 0x5eed))
+		jitter := func(op, path string, n int) {
+			if seed%2 == 0 || !(strings.HasSuffix(path, ".db") || strings.HasSuffix(path, ".tmp")) {
+				return
+			}
+			jmu.Lock()
+			d := time.Duration(jr.Intn(3000)) * time.Microsecond
+			jmu.Unlock()
+			time.Sleep(d)
+		}
+		vhook.Install(&vhook.Handlers{FS: jitter, Event: func(name string, args ...any) {
 			if name == "commit.ts" {
 				id := goid()
 				mu.Lock()
